@@ -400,6 +400,8 @@ func (st *store) exec(line string) (out string) {
 	case "foreach":
 		var cbs []string
 		err := objOf(ws[1]).ForEach(func(key []byte, i simdjson.Iter) {
+			c := i
+			st.iters[fmt.Sprintf("cb%d", len(cbs))] = &c
 			cbs = append(cbs, hx(key)+":"+iterCB(&i))
 		}, keysOf(ws[2]))
 		if err != nil {
@@ -446,8 +448,24 @@ func (st *store) exec(line string) (out string) {
 		return strconv.Itoa(int(e.Type))
 	case "aforeach":
 		var cbs []string
-		arrOf(ws[1]).ForEach(func(i simdjson.Iter) { cbs = append(cbs, iterCB(&i)) })
+		arrOf(ws[1]).ForEach(func(i simdjson.Iter) {
+			c := i
+			st.iters[fmt.Sprintf("cb%d", len(cbs))] = &c
+			cbs = append(cbs, iterCB(&i))
+		})
 		return "ok " + strings.Join(cbs, ",")
+	case "pjforeach":
+		k := 0
+		err := pjOf(ws[1]).ForEach(func(i simdjson.Iter) error {
+			c := i
+			st.iters[fmt.Sprintf("cb%d", k)] = &c
+			k++
+			return nil
+		})
+		if err != nil {
+			return "err"
+		}
+		return fmt.Sprintf("ok %d", k)
 	case "adelete":
 		mask, _ := strconv.ParseUint(ws[2], 10, 64)
 		var cbs []string
